@@ -93,6 +93,9 @@ Step(r) ==
               /\ s' = [s EXCEPT !.cp = [set |-> TRUE, id |-> IF r.out.id \in 1..Len(s.commits) THEN r.out.id ELSE s2.cp.id, pend |-> obs]]
               /\ lastUp' = [id |-> r.out.id, pending |-> OutPend(r.out)]
               /\ prevUpd' = (r.pending /\ r.id = 0) /\ UNCHANGED <<cfg, comp, beh>>
+    \* an update whose change provider failed (injected) or that was killed part-way: nothing is recorded; what the
+    \* store then holds is judged by the following show / analyze / run observations
+    [] r.ev = "cp_update_fault" -> prevUpd' = FALSE /\ UNCHANGED <<s, cfg, comp, lastUp, beh>>
     [] r.ev = "cp_show" ->
          /\ Check(IF s.cp.set
                   THEN (IF r.rc # 0 \/ r.out.id # lastUp.id \/ OutPend(r.out) # lastUp.pending
